@@ -1,0 +1,111 @@
+//go:build verif
+
+package blockchain
+
+// Hooks for the model-based conformance harness (property C32, push subscribers).
+// Compiled only with the build tag "verif"; without the tag push_noverif.go supplies
+// no-op twins of the two functions called from push.go and nothing else exists.
+
+import (
+	"sync/atomic"
+	"time"
+
+	"github.com/33cn/chain33/types"
+)
+
+var (
+	verifPushTick   int64        // nanoseconds of one back-off tick; 0 keeps the production value
+	verifPushGateFn atomic.Value // func(point, name string)
+)
+
+// VerifPushSetTick replaces the one second back-off tick of the push tasks (0 restores it).
+func VerifPushSetTick(d time.Duration) { atomic.StoreInt64(&verifPushTick, int64(d)) }
+
+func verifPushSleep(d time.Duration) time.Duration {
+	if t := atomic.LoadInt64(&verifPushTick); t > 0 && d > 0 {
+		return time.Duration(t)
+	}
+	return d
+}
+
+// VerifPushSetGate installs a function that is called by a push task goroutine at the named
+// point ("start": the goroutine exists but has neither read its resume point nor marked
+// itself running). The function may block; nil removes the gate.
+func VerifPushSetGate(f func(point, name string)) {
+	if f == nil {
+		f = func(string, string) {}
+	}
+	verifPushGateFn.Store(f)
+}
+
+func verifPushGate(point string, in *pushNotify) {
+	if f, ok := verifPushGateFn.Load().(func(string, string)); ok && f != nil {
+		f(point, in.subscribe.Name)
+	}
+}
+
+// VerifPushSetFail2Sleep sets the number of back-off ticks after a failed post.
+func VerifPushSetFail2Sleep(chain *BlockChain, n int32) { chain.push.postFail2Sleep = n }
+
+// VerifPushRestart stops the push service gracefully (as BlockChain.Close does) and starts a
+// new one on the same stores (as SetQueueClient does): active subscribers are resumed from
+// their stored records.
+func VerifPushRestart(chain *BlockChain) {
+	chain.push.Close()
+	chain.push = newpush(chain.blockStore, chain.blockStore, chain.client)
+	chain.push.postFail2Sleep = atomic.LoadInt32(&verifPushDefaultFail2Sleep)
+}
+
+var verifPushDefaultFail2Sleep = postFail2Sleep
+
+// VerifPushSetDefaultFail2Sleep sets the back-off tick count given to push services created by
+// VerifPushRestart / VerifPushWipe.
+func VerifPushSetDefaultFail2Sleep(n int32) { atomic.StoreInt32(&verifPushDefaultFail2Sleep, n) }
+
+// VerifPushWipe stops the push service, removes every subscriber record and last-pushed
+// sequence from the store and starts an empty push service (lets one node serve many
+// independent scenarios).
+func VerifPushWipe(chain *BlockChain) error {
+	chain.push.Close()
+	for _, prefix := range [][]byte{pushPrefix, lastSeqNumPrefix} {
+		it := chain.blockStore.db.Iterator(prefix, nil, false)
+		var keys [][]byte
+		for it.Rewind(); it.Valid(); it.Next() {
+			keys = append(keys, append([]byte{}, it.Key()...))
+		}
+		it.Close()
+		for _, k := range keys {
+			if err := chain.blockStore.db.DeleteSync(k); err != nil {
+				return err
+			}
+		}
+	}
+	chain.push = newpush(chain.blockStore, chain.blockStore, chain.client)
+	chain.push.postFail2Sleep = atomic.LoadInt32(&verifPushDefaultFail2Sleep)
+	return nil
+}
+
+// VerifPushTask reports the in-memory task entry of a subscriber: whether one exists, its
+// running flag, remaining back-off ticks and queued notifications.
+func VerifPushTask(chain *BlockChain, name string) (exists, isRunning bool, sleep int32, queued int) {
+	chain.push.mu.Lock()
+	defer chain.push.mu.Unlock()
+	n := chain.push.tasks[string(calcPushKey(name))]
+	if n == nil {
+		return false, false, 0, 0
+	}
+	return true, atomic.LoadInt32(&n.status) == running, atomic.LoadInt32(&n.postFail2Sleep), len(n.seqUpdateChan)
+}
+
+// VerifPushRecord reports the stored subscriber record: whether it exists and whether it is active.
+func VerifPushRecord(chain *BlockChain, name string) (known, active bool) {
+	value, err := chain.push.store.GetKey(calcPushKey(name))
+	if err != nil || value == nil {
+		return false, false
+	}
+	var p types.PushWithStatus
+	if types.Decode(value, &p) != nil {
+		return false, false
+	}
+	return true, p.Status == subscribeStatusActive
+}
